@@ -110,7 +110,8 @@ def Sched.ev (sh : Shared) (sc : Sched) (i : Nat) (e : Ev) : Sched :=
   let r := srvStep sh sc.σ i e
   { sc with σ := r.1, outs := sc.outs ++ r.2.toList }
 
-/-- one token of a `sched` line: `d<i>:<hex>` bytes arrive on socket i, `e<i>` half-close,
+/-- one token of a `sched` line: `o<i>` socket i is accepted and nothing arrives on it (a client
+that connects and stays silent), `d<i>:<hex>` bytes arrive on socket i, `e<i>` half-close,
 `r<i>` read socket i to its end (→ one result), `T` the read timeout passes for every socket
 accepted so far. -/
 def schedTok (sh : Shared) (sc : Sched) (tok : String) : Option Sched :=
@@ -124,6 +125,7 @@ def schedTok (sh : Shared) (sc : Sched) (tok : String) : Option Sched :=
       | _, _ => none
     | _ => none
   | 'e' :: rest => (String.ofList rest).toNat?.map fun i => sc.ev sh i .eof
+  | 'o' :: rest => (String.ofList rest).toNat?.map fun i => sc.ev sh i .accept
   | 'r' :: rest =>
     (String.ofList rest).toNat?.map fun i =>
       let sc := { sc with σ := (i, getConn sc.σ i) :: sc.σ }
@@ -185,6 +187,12 @@ def step (st : St) : List String → St × String
     match st.server, parseHexNat b with
     | some _, some bs => (st, if bs.contains 10 then "bad-op" else "pending")
     | _, _ => (st, "bad-op")
+  -- `hold <bytes> <n>`: n sockets hold `bytes` (no line end; `-` = nothing at all): none of them
+  -- is answered (`held_connection_silent`), whatever n
+  | ["hold", b, n] =>
+    match st.server, parseHexNat b, n.toNat? with
+    | some _, some bs, some _ => (st, if bs.contains 10 then "bad-op" else "pending")
+    | _, _, _ => (st, "bad-op")
   | ["http", sq, p] =>
     match st.server, sq.toNat?, strField p with
     | some sv, some sq, some p =>
